@@ -371,6 +371,7 @@ def handleUnsched : Handler := fun i o => do
   let want : List String := match thenS with
     | "scheduled" => ["InProgress", "Current"]
     | "deleted" => ["InProgress", "NotFound"]
+    | "touched" => ["InProgress", "InProgress", "Failed"]   -- the update re-arms the one pending re-check
     | "ns-deleted" => ["InProgress"]     -- the namespace's informers are stopped; the pod's pending re-check dies with them
     | _ => ["InProgress", "Failed"]
   let nsDel := thenS == "ns-deleted"
